@@ -511,7 +511,8 @@ def check_orders(rep, kind, ukey, u):
             gone = {nm for nm, _ in refused}
             views = [(rootkey, seq, [])]
             for act, args, tk, _ in trans.get(rootkey, ()):
-                if tk in looks and act in ("Slice", "Rc"):
+                P = meta["P"]
+                if tk in looks and (act == "Rc" or (act == "Slice" and args in ([1, P], [0, P - 1], [2, P - 1]))):
                     try:
                         views.append((tk, I.apply(seq, act, args), [[act, args]]))
                     except Exception as ex:
@@ -804,16 +805,16 @@ def check(run: Run):
     env = os.environ.get
     if tier == "quick":
         plan = [  # (stage, cfg, level, edge rate, window rate)
-            ("views", "MC_Annotation_quick.cfg", "seq", float(env("VERIF_C04_EDGES", "0.04")), float(env("VERIF_C04_WINDOWS", "0.04"))),
-            ("aln", "MC_Annotation_aln_quick.cfg", "aln", float(env("VERIF_C04_EDGES", "0.04")), 0),
+            ("views", "MC_Annotation_quick.cfg", "seq", float(env("VERIF_C04_EDGES", "0.03")), float(env("VERIF_C04_WINDOWS", "0.03"))),
+            ("aln", "MC_Annotation_aln_quick.cfg", "aln", float(env("VERIF_C04_EDGES", "0.02")), 0),
             # every interleaving of 3 calls (slice / rc / copy / degap / to_rna / add_feature on any object made so far)
-            ("hist", "MC_Annotation_hist_quick.cfg", "hist", float(env("VERIF_C04_HIST", "0.15")), 0),
+            ("hist", "MC_Annotation_hist_quick.cfg", "hist", float(env("VERIF_C04_HIST", "0.1")), 0),
             # look-alike sequence names / feature names / biotypes in one shared db: a seeded sample of the queries of every view
-            ("names", "MC_Annotation_names.cfg", "names", 0, float(env("VERIF_C04_NAMES", "0.25"))),
+            ("names", "MC_Annotation_names.cfg", "names", 0, float(env("VERIF_C04_NAMES", "0.15"))),
             # strided views seq[a:b:k], k = 1..3, rc of them, strided slices of slices: every state, a seeded sample of the other histories
             ("stride", "MC_Annotation_stride_quick.cfg", "stride", float(env("VERIF_C04_STRIDE", "0.03")), 0),
             # spans supplied in every order (2- and 3-span features), through a db and through seq.add_feature
-            ("order", "MC_Annotation_order.cfg", "order", float(env("VERIF_C04_ORDER", "0.15")), 0),
+            ("order", "MC_Annotation_order_quick.cfg", "order", float(env("VERIF_C04_ORDER", "0.2")), 0),
         ]
     else:
         plan = [
@@ -830,17 +831,17 @@ def check(run: Run):
             ("order", "MC_Annotation_order.cfg", "order", 1.0, 0),
         ]
     # share of the states on which the feature algebra / masking is exercised as well
-    alg_rates = {"views": float(env("VERIF_C04_ALGEBRA", "0.08" if tier == "quick" else "0.05")), "small": float(env("VERIF_C04_ALGEBRA", "0.5")),
-                 "aln": float(env("VERIF_C04_ALGEBRA", "0.25" if tier == "quick" else "0.15"))}
+    alg_rates = {"views": float(env("VERIF_C04_ALGEBRA", "0.05" if tier == "quick" else "0.05")), "small": float(env("VERIF_C04_ALGEBRA", "0.5")),
+                 "aln": float(env("VERIF_C04_ALGEBRA", "0.15" if tier == "quick" else "0.15"))}
     only = env("VERIF_C04_STAGES")  # debugging aid
     if only:
         plan = [p for p in plan if p[0] in only.split(",")]
     with Scratch("C04") as scratch:
         # all model-checking runs start now (they share the TLC worker budget) and are replayed in order as they finish
         # at most three model-checking runs at a time (8 TLC workers between them); the next one starts when a stage is done
-        share = {"small": 2, "views": 4, "aln": 2, "hist": 3, "names": 1, "stride": 3, "order": 2} if tier == "thorough" else {"views": 4, "aln": 2, "hist": 2, "names": 1, "stride": 2, "order": 2}
+        share = {"small": 2, "views": 4, "aln": 2, "hist": 3, "names": 1, "stride": 3, "order": 2} if tier == "thorough" else {"views": 3, "aln": 1, "hist": 1, "names": 1, "stride": 1, "order": 1}
         jobs = [TlcJob(scratch, name, cfg, level, share.get(name, 2)) for name, cfg, level, _, _ in plan]
-        for job in jobs[:3]:
+        for job in jobs[: 3 if tier == "thorough" else 6]:  # the quick models are small: all at once
             job.start()
         try:
             for job, (_, _, level, er, wr) in zip(jobs, plan):
@@ -873,20 +874,24 @@ def check(run: Run):
         "Alignment level: every placement of a row of U residues in L columns x 2 layouts of a second row x every 1-/2-span feature "
         "x strand x every view aln[a:b] / rc(): alignment feature columns, rows of its slice, projection onto the other row; the same spans "
         "as an alignment-level feature. "
-        "quick: P=5 / U=3,L=4, seeded 4% sample of the non-chain transitions and windows; thorough: P=5 with every transition and "
+        "quick: P=5 / U=3,L=4, seeded 3% sample of the non-chain transitions and windows; thorough: P=5 with every transition and "
         "window, P=6 with MaxCopy=1 (5% of non-chain transitions, 7% of windows), U=4,L=6 (10% of non-chain transitions). "
         "Feature algebra (Algebra record of every state): as_one_span, shadow, without_lost_spans, get_slice(complete=True), union, "
-        "with_masked_annotations (3 biotype sets x shadow) on the same states (quick 8% of them, thorough half of P=5 and 5% of P=6); "
+        "with_masked_annotations (3 biotype sets x shadow) on the same states (quick 5% of them, thorough half of P=5 and 5% of P=6); "
         "alignments: as_one_span / get_slice(allow_gaps=True) and Alignment.with_masked_annotations. "
         "Order of events (AnnotationHistory.tla): every history of MaxDepth calls, each on any object made so far (slice head/tail/mid, "
         "rc, copy, degap, to_rna, add_feature of the first position / of the rest on either strand, at most 2 adds), P=5; after each "
-        "history every object is asked what it sees (quick: depth 3, 15% of the histories; thorough: depth 4, 7%). "
+        "history every object is asked what it sees (quick: depth 3, 10% of the histories; thorough: depth 4, 7%). "
         "Identity of records (AnnotationNames.tla): 8 universes (one family of look-alike strings at a time for sequence names / "
         "feature names / biotypes) x every view [a:b] / rc of 3 sequences of length 4 sharing one db x sequence x filter (none, name=, "
-        "biotype=) x partial, on an old-style Alignment, old / new Sequences and members of a new-style collection (quick: 25% of the queries). "
+        "biotype=) x partial, on an old-style Alignment, old / new Sequences and members of a new-style collection (quick: 15% of the queries). "
         "Strided views (AnnotationStride.tla): the same universes with views closed under seq[a:b:k], k in 1..3 (step <= 3), and rc(): "
         "every state observed (partial / strict whole-view queries, coordinates, orientation, slice string), 3% of the other histories; "
         "quick P=5, thorough P=6. "
+        "Order of the spans supplied (Orders / Normalise in Annotation.tla, MC_Annotation_order*.cfg): every 2- and 3-span feature "
+        "(P=6; quick P=5 and 20% of the orders) supplied in every other order of its spans and with every span end-first, through "
+        "db.add_feature and through seq.add_feature (a refused call must leave no record); the root, its rc and three slices are observed; "
+        "alignments hand the spans to db.add_feature in reverse order. "
         "distinct_nontrivial = distinct (universe or history, view, feature) whose feature is only partly retained by the view and whose "
         "slice (string / alignment rows) was compared and agreed."
     )
